@@ -62,6 +62,9 @@ def compare(D0, D1, what):
             continue      # at t=0 one run may hold the initial grid (before the first renormalisation)
         if p0[t] != p1[t]:
             return "%s: phase-space records at t=%s differ" % (what, t)
+    k0, k1 = D0["dsets"].get("/RFKicks/data"), D1["dsets"].get("/RFKicks/data")
+    if k0 and k1 and k0[3] != k1[3]:
+        return "%s: the table of applied RF kicks (/RFKicks/data) differs between the two runs" % what
     for name in PHYS[1:]:
         r0 = records_by_time(D0, name, "/Info/AxisValues_t")
         r1 = records_by_time(D1, name, "/Info/AxisValues_t")
@@ -75,7 +78,9 @@ def explore(chk, exe, h5, nconf, nvar, tag):
     rng = lib.Rng(chk.seed, "C12/" + tag)
     fails, evals, cfgs = [], 0, []
     for ci in range(nconf):
-        cfg = P.gen_config(rng, True)
+        cfg = P.gen_config(rng, True, allow_rfmod=True)
+        if ci % 2 == 1 and not cfg.get("rfmod"):
+            cfg["rfmod"] = [0.5, 45000.0, ci // 2 % 2]
         cfgs.append(cfg)
         base = dict(outstep=cfg["outstep"] if cfg["outstep"] else 1, h5save=cfg["h5save"])
         D0, err = run_variant(exe, h5, cfg, base, "base")
